@@ -6,8 +6,8 @@ From J5V.model Require Import RulesDecl RulesWrite RulesRead RulesEnum RulesSpec
 From J5V.gen Require Id62Gen RulesGen.
 From J5V.model Require Import ProtoPrint ProtoPrintFile ProtoParseFile.
 From J5V.proofs Require Import RulesProofs RulesReadProofs RulesGenProofs RulesReadGenProofs.
-From J5V.model Require Import RulesView RulesTextModel ProtoPrintFileWf.
-From J5V.proofs Require Import ProtoPrintFileSemProofs ProtoPrintFileFullProofs RulesViewProofs RulesTextProofs.
+From J5V.model Require Import RulesView RulesTextModel ProtoPrintFileWf RulesNested.
+From J5V.proofs Require Import ProtoPrintFileSemProofs ProtoPrintFileFullProofs RulesViewProofs RulesTextProofs RulesNestedProofs.
 Import ListNotations.
 Local Open Scope N_scope.
 
@@ -81,6 +81,53 @@ Theorem C04_root_exact : forall env d o,
   (read_root env o = Ok (norm_root env d) <-> rt_root d = true).
 Proof. exact c04_root_exact. Qed.
 Print Assumptions C04_root_exact.
+
+(* ---- inline types (README "Inline Types") -------------------------------------------
+   A declaration is a tree [nschema]: a field of type object / oneof (singular, array items,
+   map values) may declare its schema in place, with a stated name or, by default,
+   strcase.ToCamel of the field name. [write_schema]: the compiler nests the message of the
+   inline schema in the declaring message and the field refers to it by path (Foo.Bar).
+   [read_tree]: the reflector returns, per message of the tree, a root schema named by the
+   path joined with '_' (Foo_Bar); the declaring field reads back as a reference to that
+   name. [norm_schema] is the declared tree, from the declaration alone. For every tree in
+   the fragment (every schema: plain description, properties in rt_ok), every path and name: *)
+Theorem C04_nested : forall env s path name m,
+  zero_std env = true -> tree_rt s = true ->
+  write_schema env path name s = Ok m ->
+  read_tree env path m = Ok (norm_schema env path name s).
+Proof. intros env s path name m Hstd. exact (c04_tree env Hstd s path name m). Qed.
+Print Assumptions C04_nested.
+
+(* non-vacuity: Foo { someURL : inline object (default name) { a : string };
+                      items : array of inline oneof "Item" { deep : inline object { q : bool } } }
+   — the reflected schemas are Foo, Foo_SomeUrl, Foo_Item, Foo_Item_Deep, and the fields
+   refer to them by those names *)
+Example C04_nested_example :
+  let str_f n := P n false false (PSingle (TStr None None None)) [] in
+  let s := NS RObject None [100]
+             [NF (P [115;111;109;101;85;82;76] true false (PSingle (TObject [] false None)) [])
+                 (Some (NS RObject None [] [NF (str_f [97]) None]));
+              NF (P [105;116;101;109;115] false false (PArray None None (TOneof [] false None)) [])
+                 (Some (NS ROneof (Some [73;116;101;109]) []
+                           [NF (P [100;101;101;112] false false (PSingle (TObject [] false None)) [])
+                               (Some (NS RObject None [] [NF (P [113] false false (PSingle (TBool None None)) []) None]))]))] in
+  let names := fix names (t : rtree) : list str :=
+                 match t with RT r inner => rr_name r :: flat_map names inner end in
+  tree_rt s = true /\
+  exists m, write_schema (EE [] None []) [] [70;111;111] s = Ok m /\
+    read_tree (EE [] None []) [] m = Ok (norm_schema (EE [] None []) [] [70;111;111] s) /\
+    names (norm_schema (EE [] None []) [] [70;111;111] s)
+      = [[70;111;111]; [70;111;111;95;83;111;109;101;85;114;108]; [70;111;111;95;73;116;101;109];
+         [70;111;111;95;73;116;101;109;95;68;101;101;112]] /\
+    match norm_schema (EE [] None []) [] [70;111;111] s with
+    | RT r _ => map (fun p => p_ty (rp_prop p)) (rr_props r)
+                = [PSingle (TObject [70;111;111;95;83;111;109;101;85;114;108] false None);
+                   PArray None None (TOneof [70;111;111;95;73;116;101;109] false None)]
+    end.
+Proof.
+  split; [vm_compute; reflexivity|]. eexists. split; [vm_compute; reflexivity|].
+  split; [vm_compute; reflexivity|]. split; vm_compute; reflexivity.
+Qed.
 
 (* second clause (the printed .proto text): reflection sees a field only through
    [c04_proj] (name, number, kind, label, optional keyword, the three annotations,
